@@ -98,7 +98,7 @@ def broken_stdout(c, t, rng):
             p = subprocess.Popen([binary, "--ip=127.0.0.1", "--port=%d" % port, "--thread-count=2"], cwd=t.root, env=env, stdout=subprocess.PIPE, stderr=subprocess.DEVNULL, stdin=subprocess.DEVNULL)
             buf = b""
             t0 = time.time()
-            while b"Spawned" not in buf and time.time() - t0 < 10 and p.poll() is None:
+            while b"Spawned" not in buf and time.time() - t0 < 45 and p.poll() is None:
                 ch = os.read(p.stdout.fileno(), 65536)
                 if not ch:
                     break
@@ -107,7 +107,14 @@ def broken_stdout(c, t, rng):
         else:
             full = open("/dev/full", "wb")
             p = subprocess.Popen([binary, "--ip=127.0.0.1", "--port=%d" % port, "--thread-count=2"], cwd=t.root, env=env, stdout=full, stderr=subprocess.DEVNULL, stdin=subprocess.DEVNULL)
-            time.sleep(0.5)
+        # wait until the server accepts connections (or has exited: with a failing stdout the unchanged server may not survive its own start-up messages)
+        t1 = time.time()
+        while time.time() - t1 < 30 and p.poll() is None:
+            try:
+                socket.create_connection(("127.0.0.1", port), timeout=1).close()
+                break
+            except OSError:
+                time.sleep(0.05)
         try:
             for i in range(6):
                 try:
